@@ -8,7 +8,8 @@ ids = [p['id'] for p in props]
 NOTE = ("Trusted base: go/packages + go/types + go/ssa of golang.org/x/tools v0.29.0; the hand-confirmed rule-instance tables in "
         "checker/internal/props; CHA resolution of interface calls inside the module. Assumes file-system primitives behave as documented and "
         "that calls leaving a package do not call back into mutators of its unexported state. Level 'other': a structural necessary condition "
-        "is decided exactly on every path; the behaviour itself is not.")
+        "is decided exactly on every path; the behaviour itself is not. The analysis is independent of how a body is split into unexported same-package helpers or "
+        "function literals invoked in place: paths, sites, lock states, facts and value flow look through them (checker/internal/eng/transparent.go).")
 
 # id -> (technique, text)
 CLAIMED = {
@@ -89,6 +90,27 @@ CLAIMED = {
          "equality and OS durability are not decided."),
 }
 
+# rules added after the first revision (validation rounds 2 and 3); appended to the level text / technique
+EXTRA = {
+ 'C01': "Also: the error of the deferred final flush in storeBuilder.Close reaches its named result and every footer write gates success; a commit reads the version it clones inside the write hold that installs the result; with CURRENT present a new journal is reachable only through a successful replay.",
+ 'C02': "Also: a commit's base version (GetSnapshot/GetCurrent/Clone) is read in the same write hold of the version-set mutex that installs the new version, so overlapping commits cannot clone one base.",
+ 'C03': "Also: a source block hands out field data only on the found-edge of the lookup of the requested field id; level-1 inputs of an L0 compaction pass through a set keyed by file number (each file merged once); the compaction job is single-flight (flag claimed by CompareAndSwap, job started only by the claimer).",
+ 'C04': "Also: the rollup job is single-flight (CAS claim, no blind Store(true)); the reference record is written, looked up and deleted under the same key (source store, source family id, file).",
+ 'C05': "Also: a failed page acquisition leaves the write cursor untouched (no cursor store before a failing exit, page switch only after AcquirePage succeeded); index page and slot are computed from one sequence in writer, reader, GC and reopen, reopen using exactly the appended sequence; no page read in Get is reachable once the sequence was found out of range.",
+ 'C06': "Also: every position written by an explicit reset is persisted in the same hold.",
+ 'C07': "Also: a consumer group is empty only when appended <= ACKNOWLEDGED (never the consumed position), and the expiry of a partition asks every group: a family log is not collected while applied-but-unflushed entries exist.",
+ 'C08': "Also: the queue-level barrier is the minimum over the groups' ACKNOWLEDGED positions (rule shared with C06); index<->sequence conversions of the replicator are inverse pairs (AppendIndex/ResetAppendIndex, ReplicaIndex/ResetReplicaIndex, ack without offset); every Ready exit of the handshake passed closeStream() (a stream of the failed period is never re-used).",
+ 'C09': "Also: the flush life-cycle rules are shared with C10; the flush version handed to the resolver is the value read (under the lock) before the unlocked lookup.",
+ 'C10': "Also: every index reader reads the memory stores BEFORE it picks the snapshot (entries only move memory -> kv store; the opposite order was genuine defects F9/F11, fixed); the universe of NOT is read for the tag key the atomic filter reports, also when nothing matched; an atom that matches no value yields an empty set, not an error; prepare-flush/flush life cycle of the four memory stores.",
+ 'C11': "Also: memory is filtered before the file snapshot is taken; a not-found answer of one part (mutable / immutable memory database, files) never discards the other parts (genuine defect F12, fixed); flush writes one positional entry per field for every series (data or empty).",
+ 'C12': "Also: the tag-value lookups return only the errors of the dictionary read: an OR/NOT atom that matches nothing on one node is an empty set, so the node does not answer 'not found' for series matching the rest of the condition.",
+ 'C14': "Also: FixedOffsetDecoder.Unmarshal re-initialises every field on every exit, error exits included (callers keep using a decoder whose Unmarshal failed); the long-lived snappy reader resets its buffers and the s2 reader on every exit of Uncompress.",
+ 'C15': "Also: FindFiles, getOverlappingInputs and FindReaders visit every candidate file (no break/return out of the scan other than a failing exit).",
+ 'C16': "Also: a family group is the rows inside the family range of the group's first row, tested with TimeRange.Contains against the range built from that same timestamp, and handed out with that timestamp's family time; the line-protocol parser resets its row builder on every path from the loop test to the next line.",
+ 'C17': "Also: no parser function takes a list from a helper that fills it inside a range over a map (e.g. strutil.DeDupStringSlice).",
+ 'C19': "Also: on the query execution path recover() is called only by the two designated handlers (or a function they defer); planNode.ExecuteWithStats returns the operator's own error and its stats closure does not touch it.",
+}
+
 NA = {
  'C13': "every clause is arithmetic over millisecond timestamps / calendar fields; no structural clause is a necessary condition that a sound static rule in reach can decide (DESIGN.md section 4, C13)",
  'C20': "map-equivalence of the succinct trie for every key set and probe is a value property of rank/select arithmetic; nothing structural in reach is a necessary condition (DESIGN.md section 4, C20)",
@@ -111,6 +133,8 @@ m = {
 for i in ids:
     if i in CLAIMED:
         tech, text = CLAIMED[i]
+        if i in EXTRA:
+            text = text + " " + EXTRA[i]
         m["checks"].append({
             "property_id": i,
             "quick_cmd": "./run.sh %s quick" % i,
